@@ -10,8 +10,10 @@ package c18
 
 import (
 	"context"
+	"database/sql"
 	"errors"
 	"fmt"
+	"os"
 	"strings"
 	"sync/atomic"
 	"time"
@@ -64,7 +66,8 @@ type op struct {
 var readKinds = []string{"PreloadNested", "PreloadAll", "JoinsCompany", "FindInBatches", "Rows", "Scan", "Pluck", "Count", "First", "Last", "FirstOrCreate", "FirstOrInit",
 	"AssocAppend", "AssocReplace", "AssocDelete", "AssocClear", "AssocCount", "AssocFind", "AssocAppendM2M", "AssocReplaceM2M", "Raw", "Exec", "SavePoint", "PreloadCond",
 	"NestedTxError", "NestedTxPanic", "TxError", "SoftDeleteReturning", "SoftDeleteWhere", "UpsertCompany",
-	"FindInBatchesLimit", "Row", "Take", "FindMaps", "JoinsPreloadNested", "ScopeSession"}
+	"FindInBatchesLimit", "Row", "Take", "FindMaps", "JoinsPreloadNested", "ScopeSession",
+	"MigratorHas", "MigratorColumnTypes", "TxOptions", "BeginOptions"}
 
 // doc is soft-deleted: its Delete is an UPDATE (with RETURNING: sent as a query and scanned back)
 type doc struct {
@@ -87,7 +90,8 @@ func genOp(r *core.Rand, idx int) op {
 	kind := readKinds[idx%(nk+len(readKinds))-nk]
 	o := op{desc: kind}
 	switch {
-	case strings.HasPrefix(kind, "Assoc"), kind == "SavePoint", kind == "NestedTxError", kind == "NestedTxPanic", kind == "TxError":
+	case strings.HasPrefix(kind, "Assoc"), kind == "SavePoint", kind == "NestedTxError", kind == "NestedTxPanic", kind == "TxError",
+		strings.HasPrefix(kind, "Migrator"), kind == "TxOptions", kind == "BeginOptions":
 		o.noScope = true
 	}
 	switch kind {
@@ -141,6 +145,50 @@ func genOp(r *core.Rand, idx int) op {
 		o.run = func(db *gorm.DB) error {
 			return db.Scopes(func(d *gorm.DB) *gorm.DB { return d.Where("age > ?", 1) }, func(d *gorm.DB) *gorm.DB { return d.Session(&gorm.Session{}) }).
 				Preload("Orders").Find(&[]txm.User{}).Error
+		}
+	case "MigratorHas":
+		// the migrator's look-ups are statements made on behalf of the handle Migrator() was called on
+		o.multi = true
+		o.run = func(db *gorm.DB) error {
+			m := db.Migrator()
+			if !m.HasTable(&txm.User{}) || !m.HasColumn(&txm.User{}, "Name") || m.HasTable("c18_no_such_table") {
+				return fmt.Errorf("migrator look-up gave a wrong answer")
+			}
+			m.HasIndex(&txm.User{}, "idx_c18_none")
+			return nil
+		}
+	case "MigratorColumnTypes":
+		o.multi = true
+		o.run = func(db *gorm.DB) error {
+			if _, err := db.Migrator().ColumnTypes(&doc{}); err != nil {
+				return err
+			}
+			_, err := db.Migrator().GetTables()
+			return err
+		}
+	case "TxOptions":
+		// a Transaction block with explicit options: its BEGIN and its statements are the operation's
+		o.run = func(db *gorm.DB) error {
+			return db.Transaction(func(tx *gorm.DB) error {
+				if err := tx.Create(&txm.Company{Name: "txo"}).Error; err != nil {
+					return err
+				}
+				return tx.Preload("Orders").First(&txm.User{}, 1).Error
+			}, &sql.TxOptions{})
+		}
+	case "BeginOptions":
+		o.run = func(db *gorm.DB) error {
+			tx := db.Begin(&sql.TxOptions{})
+			if tx.Error != nil {
+				return tx.Error
+			}
+			if err := tx.Model(&txm.User{ID: 2}).Update("age", 31).Error; err != nil {
+				tx.Rollback()
+				return err
+			}
+			var n int64
+			tx.Model(&txm.Order{}).Count(&n)
+			return tx.Commit().Error
 		}
 	case "Rows":
 		o.multi = true
@@ -361,8 +409,22 @@ func run(c *core.Ctx) {
 	}
 	// Session{Context} may ask for a fresh statement as well (NewDB): still the handle at hand (same pool / tx), bound
 	newDB := viaSession && bd.how == 0 && r.Intn(3) == 0
+	// db.Connection(func(tx) ...): everything runs on ONE checked-out connection. connPos 1: the bound handle opens the
+	// block (bound.Connection: the operation and the blocks opened below the binding run through the block's handle) -
+	// only from a handle that is not inside a transaction (Connection would take a second connection there) and not
+	// for a scope binding (Connection does not run scopes). connPos 2: the outer handle opens the block and the context
+	// is bound inside it (on the block's handle, or deeper). conn 2 / 3: the block sends a statement of its own outside
+	// any transaction before / after the rest and ignores its error (a block that only logs failures)
+	conn, connPos := 0, 0
+	if r.Intn(3) == 0 {
+		conn = 1 + r.Intn(3)
+		connPos = 1 + r.Intn(2)
+		if connPos == 1 && (bd.depth != 0 || bd.how != 0) {
+			connPos = 2
+		}
+	}
 	// a chain value is good for ONE chain: an operation that starts two gets it only through a Transaction block
-	if chain > 4 || (o.multi && bd.depth == nest) {
+	if chain > 4 || (o.multi && bd.depth == nest && connPos != 1) {
 		chain = 0
 	}
 	outerID := "outer-of-" + opID
@@ -374,8 +436,9 @@ func run(c *core.Ctx) {
 	if bd.depth > 0 || bd.how != 0 {
 		bindDesc += fmt.Sprintf(" on the handle inside %d open block(s), outer handle %s", bd.depth, []string{"unbound", "bound to another live context"}[bd.outer])
 	}
-	desc := fmt.Sprintf("prepareStmt=%v context=%s nest=%d%s via=%s session=%s chain=%s sibling=%d/%s :: %s", prep, []string{"value", "value+deadline", "value+cancellable"}[ctxKind], nest,
+	desc := fmt.Sprintf("prepareStmt=%v context=%s nest=%d%s via=%s%s session=%s chain=%s sibling=%d/%s :: %s", prep, []string{"value", "value+deadline", "value+cancellable"}[ctxKind], nest,
 		map[bool]string{true: "(outermost by Begin/Commit)", false: ""}[manualTx], bindDesc,
+		[]string{"", " then bound.Connection(", " inside outer.Connection("}[connPos]+[]string{"", "block)", "block: tx.Exec first, error ignored)", "block: tx.Raw last, error ignored)"}[conn],
 		[]string{"-", "bound.Session{PrepareStmt}", "handle.Session{PrepareStmt} then bound", "bound.Session{SkipDefaultTransaction}"}[sess],
 		[]string{"-", "bound.Set(k,v)", "bound.Scopes(identity)", "bound.Where(\"1 = 1\")", "bound.InstanceSet(k,v)"}[chain],
 		sibling, []string{"live", "cancelled", "expired"}[sibCtx], o.desc)
@@ -460,11 +523,28 @@ func run(c *core.Ctx) {
 	// above the binding, their SAVEPOINT / ROLLBACK TO) belongs to the outer handle.
 	// rebind: 1 / 2 = the bound handle is bound again to context.Background() (WithContext / Session{Context};
 	// for a scope binding: by one more scope of that form)
+	blockRan := false // a Connection block was entered during the last exec
 	exec := func(ctx context.Context, rebind int) (err error, w span) {
+		blockRan = false
 		pre, lo, hi := -1, -1, -1
 		var f func(db *gorm.DB, n int) error
+		inConn := false
+		connBlock := func(db *gorm.DB, body func(tx *gorm.DB) error) error {
+			return db.Connection(func(tx *gorm.DB) error {
+				blockRan = true
+				if conn == 2 {
+					tx.Exec("UPDATE companies SET name = name || ? WHERE id = ?", "+", 1)
+				}
+				err := body(tx)
+				if conn == 3 {
+					var one int
+					tx.Raw("SELECT count(*) FROM users").Scan(&one)
+				}
+				return err
+			})
+		}
 		f = func(db *gorm.DB, n int) error {
-			if nest-n == bd.depth {
+			if nest-n == bd.depth && !inConn {
 				pre = h.Rec.Mark() // what the siblings derived while binding send is theirs
 				db = bindTo(db, ctx)
 				switch {
@@ -477,6 +557,11 @@ func run(c *core.Ctx) {
 				}
 				lo = h.Rec.Mark()
 				defer func() { hi = h.Rec.Mark() }()
+				if connPos == 1 {
+					// everything below runs on one checked-out connection, through the block's handle (a session)
+					inConn = true
+					return connBlock(db, func(tx *gorm.DB) error { return f(tx, n) })
+				}
 			}
 			if n == 0 {
 				return o.run(db)
@@ -498,7 +583,11 @@ func run(c *core.Ctx) {
 		if bd.outer == 1 {
 			root = h.DB.WithContext(context.WithValue(context.Background(), ctxKey{}, outerID))
 		}
-		err = f(root, nest)
+		if connPos == 2 {
+			err = connBlock(root, func(tx *gorm.DB) error { return f(tx, nest) })
+		} else {
+			err = f(root, nest)
+		}
 		end := h.Rec.Mark()
 		if pre < 0 {
 			pre = end
@@ -590,7 +679,10 @@ func run(c *core.Ctx) {
 		for _, e := range evs {
 			kinds[e.Kind] = true
 		}
-		c.Shape(name, prep, nest, viaSession, len(kinds), len(evs) > 6, chain > 0, manualTx, sess, bd.how, bd.depth, bd.outer)
+		c.Shape(name, prep, nest, viaSession, len(kinds), len(evs) > 6, chain > 0, manualTx, sess, bd.how, bd.depth, bd.outer, conn, connPos)
+		if conn != 0 {
+			c.Inc("connection_block_runs")
+		}
 		if chain > 0 && sibling > 0 {
 			c.Inc("chain_value_with_sibling_runs")
 		}
@@ -625,13 +717,15 @@ func run(c *core.Ctx) {
 	mark = h.Rec.Mark()
 	err, w = exec(cctx, 0)
 	var ran []string
+	allOnConn := true
 	for _, e := range h.Rec.Since(mark)[w.lo-mark : w.hi-mark] {
 		if e.IsStatement() || e.Kind == recdrv.KBegin {
 			ran = append(ran, short(e.String()))
+			allOnConn = allOnConn && onCheckedOutConn(connPos, opID, e)
 		}
 	}
 	c.Inc("cancelled_runs")
-	if len(ran) > 0 || err == nil {
+	if len(ran) > 0 || err == nil || (connPos == 1 && blockRan) {
 		p := []string{}
 		if len(ran) > 0 {
 			p = append(p, fmt.Sprintf("%d driver calls ran under an already-cancelled context: %v", len(ran), ran))
@@ -639,7 +733,19 @@ func run(c *core.Ctx) {
 		if err == nil {
 			p = append(p, "no error returned for a cancelled context")
 		}
-		c.Violation("cancelled/"+name, map[string]interface{}{"op": desc, "problems": p})
+		sig := "cancelled/" + name
+		// (bound.Connection itself must refuse an already-cancelled context: only a block opened by the outer handle
+		// can get as far as a statement on the connection)
+		if len(ran) > 0 && allOnConn && connPos == 2 && !debugSkipClass {
+			sig = sigOnConn
+		}
+		if connPos == 1 && blockRan {
+			p = append(p, "bound.Connection entered its block although the bound context had already ended")
+		}
+		if debugSkipClass && sig == "cancelled/"+name && len(ran) > 0 && allOnConn && connPos == 2 {
+			return
+		}
+		c.Violation(sig, map[string]interface{}{"op": desc, "problems": p})
 	}
 	// (2b) a handle bound to a (cancelled) context and bound again to context.Background(): the operation runs under
 	// the new context; nothing of the old one (its value, its cancellation) reaches a driver call or a hook
@@ -688,7 +794,7 @@ func run(c *core.Ctx) {
 			c.Inconclusive("could not restore the tables after a cancelled run: " + err.Error())
 			return
 		}
-		cancelMidway(c, h, parent, opID, exec, window, k, desc, name)
+		cancelMidway(c, h, parent, opID, exec, window, k, desc, name, connPos)
 	}
 }
 
@@ -697,7 +803,7 @@ func run(c *core.Ctx) {
 // driver, an error must come back. A statement issued through a fresh internal session after that point would show
 // here. (Calls of blocks opened from an outer handle - their ROLLBACK TO SAVEPOINT - are under the outer context.)
 func cancelMidway(c *core.Ctx, h *vdb.Handle, parent context.Context, opID string, exec func(context.Context, int) (error, span),
-	window func(mark int, w span) (in, out []recdrv.Event), k int, desc, name string) {
+	window func(mark int, w span) (in, out []recdrv.Event), k int, desc, name string, connPos int) {
 	cctx, cancel := context.WithCancel(parent)
 	defer cancel()
 	txm.ResetHooks()
@@ -729,10 +835,12 @@ func cancelMidway(c *core.Ctx, h *vdb.Handle, parent context.Context, opID strin
 	}
 	c.Inc("cancelled_midway_runs")
 	var ran []string
+	allOnConn := true
 	in, _ := window(mark, w)
 	for _, e := range in {
 		if e.Seq > cs && !(e.Stmt != 0 && e.Stmt == atomic.LoadInt64(&cancelStmt) && (e.Kind == recdrv.KStmtExec || e.Kind == recdrv.KStmtQuery)) {
 			ran = append(ran, fmt.Sprintf("(context value %v, its Err at the call: %v) %s", e.CtxVal, e.CtxErr, short(e.String())))
+			allOnConn = allOnConn && onCheckedOutConn(connPos, opID, e)
 		}
 	}
 	var p []string
@@ -743,8 +851,28 @@ func cancelMidway(c *core.Ctx, h *vdb.Handle, parent context.Context, opID strin
 		p = append(p, "and no error was returned")
 	}
 	if len(p) > 0 {
-		c.Violation("cancelled-midway/"+name, map[string]interface{}{"op": desc, "cancelled_during_call": k, "problems": p})
+		sig := "cancelled-midway/" + name
+		if len(ran) > 0 && allOnConn {
+			sig = sigOnConn
+			if debugSkipClass {
+				return
+			}
+		}
+		c.Violation(sig, map[string]interface{}{"op": desc, "cancelled_during_call": k, "problems": p})
 	}
+}
+
+// sigOnConn is the one class of violation of its own: inside a db.Connection block a statement (or a BEGIN) started
+// from a handle whose context has ALREADY ended is handed to the driver - with that ended context - directly on the
+// checked-out *sql.Conn, outside any transaction (sql.Conn does not look at the context before calling the driver,
+// sql.DB and sql.Tx do, and gorm does not look either)
+var debugSkipClass = os.Getenv("C18_DEBUG_SKIP_CLASS") != ""
+
+const sigOnConn = "ended-context-statement-on-checked-out-connection"
+
+func onCheckedOutConn(connPos int, opID string, e recdrv.Event) bool {
+	// (a call whose context has ended reaches the driver only that way: sql.DB and sql.Tx refuse it before)
+	return connPos != 0 && e.CtxVal == opID && e.CtxErr != nil
 }
 
 // reseed restores the tables. A run whose context was cancelled may have left a transaction that database/sql
@@ -789,9 +917,9 @@ var Engine = &core.Engine{
 	},
 	Cases: func(tier string) int {
 		if tier == "thorough" {
-			return 110 * 500
+			return 118 * 466
 		}
-		return 110 * 50
+		return 118 * 47
 	},
 	Batch:         func(string) int { return 40 },
 	Run:           run,
